@@ -28,20 +28,28 @@ def opFault (op : String) (a : Args) : Option String := do
     | some "none" | none => none
     | some v => v.toNat?
   match op with
-  | "fault.enc" | "fault.writec" | "fault.rawcopy" | "fault.stream" => some "oracle-only"   -- cipher / codec layers are external: judged by the oracle alone
+  | "fault.enc" | "fault.writec" | "fault.writeo" | "fault.rawcopy" | "fault.stream" => some "oracle-only"   -- cipher / codec layers are external: judged by the oracle alone
   | "fault.read" => some (faultRead (← a.hex? "bytes") fa)
   | "fault.write" =>
     let calls := ((a.get? "calls").getD "").splitOn ";"
     let ext := mkWExt (parseComp ((a.get? "comp").getD "-")) (parseZc ((a.get? "zc").getD "-"))
     let tail := fun (d : Dev) => s!" ncalls={d.calls}"
+    -- sources of raw copies: opened fault-free (the fault is on the SINK; the source reader delivers each entry whole)
+    let srcs : List (Archive × Dev) := (List.range 8).filterMap fun i =>
+      match a.hex? s!"src{i}" with
+      | some b =>
+        match openArchive.runPure (Dev.ofBytes b) with
+        | (.ok ar, d) => some (ar, d)
+        | _ => none
+      | none => none
     match calls with
     | first :: rest =>
       match first.splitOn "," with
-      | ["new"] => some (runCallsF ext [] fa tail rest WState.init (Dev.ofBytes []) ["ok"])
+      | ["new"] => some (runCallsF ext srcs fa tail rest WState.init (Dev.ofBytes []) ["ok"])
       | ["ap", base] => do
         let b ← parseHex base
         match newAppend fa (Dev.ofBytes b) with
-        | (.ok s, d) => some (runCallsF ext [] fa tail rest s d ["ok"])
+        | (.ok s, d) => some (runCallsF ext srcs fa tail rest s d ["ok"])
         | (.err e, d) => some ((Out.className e).replace " " ":" ++ " " ++ showFinal d ++ tail d)
         | (.panic _, _) => some "panic"
       | _ => some "bad-op"
